@@ -402,6 +402,9 @@ func histories(e *env, filters, rnames []string, depthAll, depthBFS int) {
 	historiesN(e, filters, rnames, depthAll, depthBFS, 2)
 }
 
+// qosCap is topics.MaxQosAllowed during a history search (the package default is 2)
+var qosCap byte = 2
+
 func historiesN(e *env, filters, rnames []string, depthAll, depthBFS, nsubs int) {
 	ops := histOps(filters, rnames, nsubs)
 	subsObj := []*sub{{"s1"}, {"s2"}, {"s3"}, {"s4"}}
@@ -412,6 +415,7 @@ func historiesN(e *env, filters, rnames []string, depthAll, depthBFS, nsubs int)
 	}
 	probeFilters := append(append([]string{}, filters...), "#", "+", "+/+", "a/+", "+/b")
 	run := func(hist []int) (string, string, int) {
+		topics.MaxQosAllowed = qosCap
 		mt := topics.NewMemProvider()
 		mod := hmodel{subs: map[string]byte{}, retained: map[string]string{}, pret: map[string][2]string{}}
 		// an operation on a topic with an empty level anywhere in the history can leave
@@ -437,11 +441,16 @@ func historiesN(e *env, filters, rnames []string, depthAll, depthBFS, nsubs int)
 					}
 					continue
 				}
-				if _, err := mt.Subscribe([]byte(o.filter), o.qos, subsObj[o.sub]); err != nil {
+				g, err := mt.Subscribe([]byte(o.filter), o.qos, subsObj[o.sub])
+				if err != nil {
 					return fmt.Sprintf("step %d %s fails: %v", i+1, o, err), "", i + 1
 				}
-				mod.subs[fmt.Sprintf("%d|%s", o.sub, o.filter)] = o.qos
-				psubs[fmt.Sprintf("%d|%s", o.sub, pinned(o.filter))] = o.qos
+				// the subscription's QoS is what Subscribe grants: min(requested, topics.MaxQosAllowed)
+				if g != minq(o.qos, qosCap) {
+					return fmt.Sprintf("step %d %s grants QoS %d, the cap is %d", i+1, o, g, qosCap), "", i + 1
+				}
+				mod.subs[fmt.Sprintf("%d|%s", o.sub, o.filter)] = g
+				psubs[fmt.Sprintf("%d|%s", o.sub, pinned(o.filter))] = g
 			case 'U':
 				k := fmt.Sprintf("%d|%s", o.sub, o.filter)
 				err := mt.Unsubscribe([]byte(o.filter), subsObj[o.sub])
@@ -602,7 +611,7 @@ func histClass(s string) string {
 // C06 entry point.
 func C06(c *core.Ctx) {
 	e := &env{c: c}
-	c.Rep.Bound = "pairs: all filters and names of 1..4 levels over {a,b,empty,+,#} and of 1..3 levels over {a,$x,x$,$,+,#,+$,#$,a+,a#} (not beginning with $); histories: 2 subscribers x filters x QoS 0-2 + retained updates, all sequences to depth 3 and BFS with de-duplication to depth 5 (quick) / all sequences to depth 4 and BFS to fixpoint or depth 8 (thorough)"
+	c.Rep.Bound = "pairs: all filters and names of 1..4 levels over {a,b,empty,+,#} and of 1..3 levels over {a,$x,x$,$,+,#,+$,#$,a+,a#} (not beginning with $); histories: 2 subscribers x filters x QoS 0-2 + retained updates, all sequences to depth 3 and BFS with de-duplication to depth 5 (quick) / all sequences to depth 4 and BFS to fixpoint or depth 8 (thorough); a history search with topics.MaxQosAllowed at 1 and at 0"
 	c.Rep.Rule = "ENUM over all filter/name pairs (each valid filter alone in a fresh real MemTopics, every name, subscription and publish QoS; invalid filters must be rejected without effect; same for the retained relation) + HIST over subscribe/unsubscribe/retain histories compared with refmatch after every history; non-trivial = pairs that match / distinct model states"
 	if c.Replay != nil {
 		fmt.Printf("replay %s\n  %s\n  input: %s\n", c.Replay.Scenario, c.Replay.Message, string(c.Replay.Input))
@@ -649,6 +658,17 @@ func C06(c *core.Ctx) {
 		historiesN(e, []string{"a", "a/+"}, nil, 4, 6, 2)
 	}
 	twinSubs = false
+	// the server's QoS cap below 2: what counts is the QoS Subscribe granted, not the one requested
+	for _, qc := range []byte{1, 0} {
+		qosCap = qc
+		if c.Thorough() {
+			histories(e, []string{"a", "a/+", "#"}, []string{"a"}, 4, 6)
+		} else {
+			histories(e, []string{"a", "a/+", "#"}, nil, 3, 5)
+		}
+	}
+	qosCap = 2
+	topics.MaxQosAllowed = 2
 	// rejected filters on a populated store: they share leading levels with held subscriptions
 	if c.Thorough() {
 		histories(e, []string{"a/b", "a/b/a", "a/#/b", "a/b+", "a/b/#/a"}, []string{"a/b"}, 3, 5)
